@@ -106,6 +106,30 @@ func selCases(tier string) []selCase {
 			}
 		}
 	}
+	// long extents (runs of 64 and more selected elements; a block-wise transfer must still stop at the extent)
+	wide := func(n int) [][]int {
+		o := [][]int{nil}
+		for _, start := range []int{0, 1, 5} {
+			for _, stop := range []int{start + 63, start + 64, start + 65, n - 1, n, n + 1, n + 40} {
+				for _, step := range []int{1, 2} {
+					if stop > start {
+						o = append(o, []int{start, stop, step})
+					}
+				}
+			}
+		}
+		return o
+	}
+	for _, n := range []int{70, 130} {
+		for _, s := range wide(n) {
+			out = append(out, selCase{[]int{n}, [][]int{s}})
+		}
+	}
+	for _, a := range selOptions(2, false) {
+		for _, b := range wide(70) {
+			out = append(out, selCase{[]int{2, 70}, [][]int{a, b}})
+		}
+	}
 	return out
 }
 
@@ -629,7 +653,51 @@ func jobsFor[T seqx.Number, A seqx.ND[T, A]](ty typ[T, A], tier string, selTypes
 			}, map[string]interface{}{"part": "selections", "element_type": ty.name, "first": part[0], "count": len(part)}})
 		}
 	}
+	out = append(out, job{"big", ty.name, func(r *vf.Rec) { bigWrites(ty, r) }, map[string]interface{}{"part": "write/load round trips of large arrays in every source layout", "element_type": ty.name}})
 	return out
+}
+
+// bigWrites: Write then Load of arrays with thousands of elements in every source layout (a block-wise write of a
+// non-contiguous view must not drop the last partial block): [5000], [1000,5], [366,12,3].
+func bigWrites[T seqx.Number, A seqx.ND[T, A]](ty typ[T, A], r *vf.Rec) {
+	fn := h5file()
+	for _, shape := range [][]int{{5000}, {1000, 5}, {366, 12, 3}} {
+		for _, kind := range []string{"contiguous", "column", "stepped", "reshaped"} {
+			hdf5.FakeReset()
+			n := prod(shape)
+			vals := make([]T, n)
+			for i := range vals {
+				vals[i] = T(1 + i%9973)
+			}
+			src := source(ty, kind, shape, vals)
+			r.Count("big_write_round_trips", 1)
+			d := map[string]interface{}{"element_type": ty.name, "shape": shape, "source_layout": kind}
+			if err := ty.mk(fn, "/big", nil).Write(src); err != nil {
+				r.Failf("C08/big-write-fails/"+kind, d, "Write of a %v %s array failed: %v", shape, kind, err)
+				continue
+			}
+			got, err := ty.mk(fn, "/big", nil).Load()
+			if err != nil {
+				r.Failf("C08/big-load-fails/"+kind, d, "Load of a %v dataset failed: %v", shape, err)
+				continue
+			}
+			if !reflect.DeepEqual(got.Shape(), shape) {
+				r.Failf("C08/big-round-trip-shape/"+kind, d, "a %v %s array came back with shape %v", shape, kind, got.Shape())
+				continue
+			}
+			idx := make([]int, len(shape))
+			for k := 0; k < n; k++ {
+				if g := got.Get(idx); g != vals[k] {
+					d["first_wrong_element"] = append([]int{}, idx...)
+					r.Failf("C08/big-round-trip-values/"+kind, d, "Write then Load of a %v %s array: element %v is %v, was %v", shape, kind, idx, g, vals[k])
+					break
+				}
+				data.Increment(idx, shape)
+			}
+		}
+	}
+	hdf5.FakeReset()
+	r.MarkNontrivial()
 }
 
 type enum struct{ jobs []job }
